@@ -182,7 +182,7 @@ class Machine:
         self.release = release           # release profile: integer overflow wraps instead of panicking
         self.domains = {}                # z3 const name -> finite list of python strings (for fork-on-value)
         self.char_ops_forbidden = False  # layer-B harnesses: a character-level look at a symbolic name breaks data independence
-        self.char_splits = 0; self.probe_domains = {}; self.probe_splits = 0
+        self.char_splits = 0; self.probe_domains = {}; self.probe_splits = 0; self.di_broken = 0
         self.fuel0 = fuel; self.fuel = fuel
         self.effects = []                # recorded environment effects (C12)
         self.env_model = {}              # environment stubs (C12)
@@ -358,7 +358,9 @@ class Machine:
             raise Infeasible()
         if dom is None: raise Unsupported('character-level operation on unconstrained symbolic string %s' % p)
         if self.char_ops_forbidden:
-            raise Unsupported('character-level operation on a name in a data-independent harness (%s)' % p)
+            # the code looks into a name in a harness that argues by data independence (names only compared): continue by case split over the pool,
+            # but record it - the claim is then relative to the pool, not to all names
+            self.di_broken += 1
         self.char_splits += 1
         for cand in dom[:-1]:
             if self.branch(p == z3.StringVal(cand)): return cand
@@ -910,6 +912,10 @@ def _reader_from_str(m, s):
     f = m.env_model.get('reader_from_str')
     if f is None: raise Unsupported('Reader::from_str without environment model')
     return f(m, s)
+def _reader_from_file(m, path):
+    f = m.env_model.get('reader_from_file')
+    if f is None: raise Unsupported('Reader::from_file without environment model')
+    return f(m, path)
 def _args_parse(m):
     f = m.env_model.get('args_parse')
     if f is None: raise Unsupported('Args::parse without environment model')
@@ -919,9 +925,11 @@ BUILTIN_FNS = {
     ('VecDeque', 'with_capacity'): lambda m, n: RVec(), ('Vec', 'from'): lambda m, v: RVec(list(m.iterate(v))), ('Some', 'x'): None,
     ('Vec', 'new'): lambda m: RVec(), ('String', 'new'): lambda m: RStr(''), ('HashMap', 'new'): lambda m: RMap(), ('HashSet', 'new'): lambda m: RSet(),
     ('String', 'from'): lambda m, s: RStr(s.val if isinstance(s, RStr) else s), ('String', 'from_utf8'): _string_from_utf8,
+    ('String', 'from_utf8_lossy'): lambda m, b: RStr(b.val),          # invalid sequences become U+FFFD: never an error (the replaced content is not modelled)
+    ('str', 'from_utf8'): _string_from_utf8,
     ('mem', 'discriminant'): lambda m, v: RDisc(v.enum, v.variant), ('VecDeque', 'new'): lambda m: RVec(),
     ('process', 'exit'): _exit, ('fs', 'read_to_string'): _read_to_string, ('File', 'create'): _file_create,
-    ('Reader', 'from_str'): _reader_from_str, ('Args', 'parse'): _args_parse,
+    ('Reader', 'from_str'): _reader_from_str, ('Reader', 'from_file'): _reader_from_file, ('Args', 'parse'): _args_parse,
     ('env_logger', 'init'): lambda m: UNIT,
 }
 def _position(m, it, f):
@@ -1092,6 +1100,27 @@ def _lower(m, c):
     c = _char_ok(c)
     return RIter(list(c.lower()))
 
+def _swap_remove(m, v, i):
+    if not isinstance(i, int): raise Unsupported('symbolic index')
+    if i >= len(v.l): raise PanicEx('swap_remove index out of bounds')
+    x = v.l[i]; last = v.l.pop()
+    if i < len(v.l): v.l[i] = last
+    return x
+def _str_insert(m, s_, i, c):
+    if i == 0:
+        s_.val = s_concat(c if isinstance(c, str) else c.val, s_.val); return UNIT          # stays symbolic
+    v = m.cs(s_).encode()
+    if not isinstance(i, int) or i > len(v) or (i < len(v) and (v[i] & 0xC0) == 0x80): raise PanicEx('insert: not a char boundary')
+    s_.val = v[:i].decode() + (c if isinstance(c, str) else m.cs(c)) + v[i:].decode(); return UNIT
+def _str_remove(m, s_, i):
+    v = m.cs(s_).encode()
+    if not isinstance(i, int) or i >= len(v) or (v[i] & 0xC0) == 0x80: raise PanicEx('remove: not a char boundary')
+    ch = v[i:].decode()[0]
+    s_.val = v[:i].decode() + v[i:].decode()[1:]; return ch
+def _str_pop(m, s_):
+    v = m.cs(s_)
+    if not v: return NONE()
+    s_.val = v[:-1]; return Some(v[-1])
 def _dedup(m, v):
     out = []
     for x in v.l:
@@ -1220,6 +1249,7 @@ BUILTIN_METHODS = {
     ('RVec', 'reverse'): lambda m, v: (v.l.reverse(), UNIT)[1], ('RVec', 'extend'): lambda m, v, o: (v.l.extend(m.iterate(o)), UNIT)[1],
     ('RVec', 'append'): lambda m, v, o: (v.l.extend(o.l), o.l.clear(), UNIT)[2],
     ('RVec', 'as_slice'): lambda m, v: v, ('RVec', 'as_ref'): lambda m, v: v, ('RVec', 'as_mut_slice'): lambda m, v: v,
+    ('RVec', 'swap_remove'): lambda m, v, i: _swap_remove(m, v, i), ('RStr', 'into_owned'): lambda m, s: RStr(s.val), ('RStr', 'to_vec'): lambda m, s: RBytes(s.val, True),
     ('RVec', 'dedup'): _dedup, ('RVec', 'retain'): _retain, ('RVec', 'truncate'): _truncate, ('RVec', 'swap'): _swap,
     ('RVec', 'extend_from_slice'): lambda m, v, o: (v.l.extend(deep(x) for x in o.l), UNIT)[1],
     ('RVec', 'first_mut'): lambda m, v: Some(v.l[0]) if v.l else NONE(), ('RVec', 'last_mut'): lambda m, v: Some(v.l[-1]) if v.l else NONE(),
@@ -1248,6 +1278,8 @@ BUILTIN_METHODS = {
     ('RStr', 'eq_ignore_ascii_case'): lambda m, s_, t: m.cs(s_).lower() == m.cs(t).lower() if (m.cs(s_).isascii() and m.cs(t).isascii()) else (_ for _ in ()).throw(Unsupported('eq_ignore_ascii_case on non-ASCII')),
     ('RStr', 'capacity'): lambda m, s_: 0, ('RStr', 'reserve'): lambda m, s_, n: UNIT, ('RStr', 'insert_str'): lambda m, s_, i, t: (setattr(s_, 'val', m.cs(s_).encode()[:i].decode() + m.cs(t) + m.cs(s_).encode()[i:].decode()), UNIT)[1],
     ('RStr', 'is_ascii'): lambda m, s_: m.cs(s_).isascii(),
+    ('RStr', 'insert'): lambda m, s_, i, c: _str_insert(m, s_, i, c), ('RStr', 'remove'): lambda m, s_, i: _str_remove(m, s_, i), ('RStr', 'pop'): lambda m, s_: _str_pop(m, s_),
+    ('RStr', 'truncate'): lambda m, s_, n: (setattr(s_, 'val', m.slice_str(s_, 0, n).val), UNIT)[1],
     ('RIter', 'rev'): lambda m, it: RIter(reversed(it.l[it.i:])), ('RIter', 'position'): _position, ('RIter', 'find'): _find,
     ('RIter', 'any'): _any, ('RIter', 'all'): _all, ('RIter', 'filter'): _filter, ('RIter', 'next'): _next,
     ('RIter', 'map'): lambda m, it, f: RIter([m.call_value(f, [x]) for x in it.l[it.i:]]), ('RIter', 'collect'): _collect,
